@@ -91,6 +91,7 @@ func (c RawConfiguration) handleAsyncCall(ctx context.Context, fut *Async, state
 	if state.expectedReplies == 0 {
 		// no node was targeted (the per node function skipped all of them)
 		fut.reply, fut.err = resp, QuorumCallError{cause: Incomplete, errors: errs, replies: len(replies)}
+		vEmit("CallEnd", 0, state.md.MessageID, "out", "incomplete", "nerr", len(errs), "nrep", len(replies))
 		return
 	}
 
